@@ -264,6 +264,10 @@ Inductive op :=
 | Observe (c : Z) (oa : obsaddr)     (* identify delivered an observed address on conn c *)
 | MarkClosed (c : Z)                 (* conn c's IsClosed() becomes true (no notification yet) *)
 | Disconnect (c : Z)                 (* Disconnected notification: IsClosed() true, removeConn(c) *)
+| ObservePair (c : Z) (oa ob : obsaddr)
+    (* two reports of conn c in quick succession, oa first: the first is still
+       inside shouldRecordObservation (stalled at its listenAddrs() call) when
+       the second is queued.  With the single worker they are applied in order *)
 | ObserveDuring (c : Z) (oa : obsaddr) (d : Z).
     (* as Observe, but conn d is closed and its Disconnected notification is
        delivered while the worker is inside shouldRecordObservation, at the
@@ -288,6 +292,7 @@ Definition step (cfg : config) (st : state) (o : op) : state :=
   | Observe c oa => record cfg st c oa
   | MarkClosed c => mark_closed st c
   | Disconnect c => disconnect cfg st c
+  | ObservePair c oa ob => record cfg (record cfg st c oa) c ob
   | ObserveDuring c oa d =>
       (* the IsClosed check of recordObservationUnlocked runs under the lock,
          after the interleaved removeConn: [record] sees the new closed set *)
